@@ -45,17 +45,18 @@ import (
 )
 
 const (
-	c01Recent        = iota // on-time recent second (now-1)
-	c01RecentLate           // recent second older than the recent window: must be answered keep
-	c01Historic             // historic second inside the historic window
-	c01Spare                // recent second of another replica sent to us as spare
-	c01TooOld               // historic second beyond the historic window: deliberate discard
-	c01Future               // second beyond the future window: deliberate discard
-	c01WrongShard           // header names another shard*replica: deliberate discard
-	c01Undecodable          // body is not a source bucket: deliberate discard
+	c01Recent       = iota // on-time recent second (now-1)
+	c01RecentLate          // recent second older than the recent window: must be answered keep
+	c01Historic            // historic second inside the historic window
+	c01Spare               // recent second of another replica sent to us as spare
+	c01TooOld              // historic second beyond the historic window: deliberate discard
+	c01Future              // second beyond the future window: deliberate discard
+	c01WrongShard          // header names another shard*replica: deliberate discard
+	c01Undecodable         // body is not a source bucket: deliberate discard
+	c01HistoricEdge        // historic second at the very edge of the historic window: accepted now, it may leave the window while it waits
 )
 
-var c01KindName = []string{"recent", "recent-late", "historic", "spare", "too-old", "future", "wrong-shard", "undecodable"}
+var c01KindName = []string{"recent", "recent-late", "historic", "spare", "too-old", "future", "wrong-shard", "undecodable", "historic-edge"}
 
 type c01Req struct {
 	kind  int
@@ -78,17 +79,22 @@ func c01AggScenarios(thorough bool) []c01AggScenario {
 		{name: "recent and historic", replica: 1, inserter: 1, agents: [][]c01Req{{R(c01Recent, 0), R(c01Recent, s)}, {R(c01Historic, 0)}}},
 		{name: "late recent, spare, rejects", replica: 2, inserter: 1, agents: [][]c01Req{{R(c01RecentLate, 0), R(c01Spare, s)}, {R(c01TooOld, 0), R(c01Future, 0)}}},
 		{name: "wrong shard and undecodable", replica: 3, inserter: 1, agents: [][]c01Req{{R(c01WrongShard, 0), R(c01Recent, 0)}, {R(c01Undecodable, 0), R(c01Historic, s)}}},
-		{name: "insert failures: recent and historic", replica: 1, inserter: 1, fails: true, agents: [][]c01Req{{R(c01Recent, 0), R(c01Recent, 3 * s)}, {R(c01Historic, 0)}}},
-		{name: "insert failures: two inserters", replica: 2, inserter: 2, fails: true, agents: [][]c01Req{{R(c01Recent, 0), R(c01Historic, s)}, {R(c01Recent, 2 * s), R(c01Spare, 0)}}},
+		{name: "insert failures: recent and historic", replica: 1, inserter: 1, fails: true, agents: [][]c01Req{{R(c01Recent, 0), R(c01Recent, 3*s)}, {R(c01Historic, 0)}}},
+		{name: "insert failures: two inserters", replica: 2, inserter: 2, fails: true, agents: [][]c01Req{{R(c01Recent, 0), R(c01Historic, s)}, {R(c01Recent, 2*s), R(c01Spare, 0)}}},
 	}
 	P := func(kind int, d, pause time.Duration) c01Req { return c01Req{kind: kind, delay: d, pause: pause} }
 	out = append(out,
 		c01AggScenario{name: "ticker misses 8 s then recent and historic", replica: 1, inserter: 1, agents: [][]c01Req{{R(c01Recent, 0), P(c01Recent, s, 8*s), R(c01Recent, 3*s)}, {R(c01Historic, 12*s)}}},
+		// a historic second that is accepted at the edge of the window and leaves it while it waits for an
+		// inserter (answered "discarded before historic window" without an insert: allowed, it did not stay
+		// inside the window); the historic seconds sent AFTER that round must still be inserted
+		c01AggScenario{name: "historic second leaves the window while waiting, then historic", replica: 1, inserter: 1, agents: [][]c01Req{{R(c01HistoricEdge, 0), R(c01Historic, 7*s), R(c01Historic, 4*s)}, {R(c01Recent, 0), R(c01Recent, 5*s)}}},
 		c01AggScenario{name: "ticker misses 3 s twice", replica: 2, inserter: 1, agents: [][]c01Req{{P(c01Recent, 0, 3*s), P(c01Recent, s, 3*s), R(c01Recent, 2*s)}, {R(c01RecentLate, 9*s)}}},
 	)
 	if thorough {
 		out = append(out,
-			c01AggScenario{name: "three agents", replica: 1, inserter: 2, fails: true, agents: [][]c01Req{{R(c01Recent, 0), R(c01Historic, s)}, {R(c01Recent, 0), R(c01RecentLate, 0)}, {R(c01Historic, 0), R(c01Recent, 3 * s)}}},
+			c01AggScenario{name: "three agents", replica: 1, inserter: 2, fails: true, agents: [][]c01Req{{R(c01Recent, 0), R(c01Historic, s)}, {R(c01Recent, 0), R(c01RecentLate, 0)}, {R(c01Historic, 0), R(c01Recent, 3*s)}}},
+			c01AggScenario{name: "two edge seconds, two inserters, failures", replica: 2, inserter: 2, fails: true, agents: [][]c01Req{{R(c01HistoricEdge, 0), R(c01HistoricEdge, s), R(c01Historic, 9*s)}, {R(c01Recent, 0), R(c01Historic, 12*s)}}},
 			c01AggScenario{name: "historic only with failures", replica: 3, inserter: 1, fails: true, agents: [][]c01Req{{R(c01Historic, 0), R(c01Historic, s)}, {R(c01Historic, 0), R(c01TooOld, 0)}}},
 		)
 	}
@@ -97,18 +103,19 @@ func c01AggScenarios(thorough bool) []c01AggScenario {
 
 // c01Sent is one scripted request and everything observed about it.
 type c01Sent struct {
-	id        int
-	kind      int
-	time      uint32 // args.Time
-	marker    int32  // metric id of the marker row
-	longpoll  bool
-	answers   int
-	discard   bool
-	warning   string
-	rpcErr    string
-	answerAt  time.Duration
-	sentAt    time.Duration
-	insertsOK int // successful inserts whose body held the marker row of this request
+	id         int
+	kind       int
+	time       uint32 // args.Time
+	marker     int32  // metric id of the marker row
+	longpoll   bool
+	answers    int
+	discard    bool
+	warning    string
+	rpcErr     string
+	answerAt   time.Duration
+	sentAt     time.Duration
+	insertsOK  int  // successful inserts whose body held the marker row of this request
+	leftWindow bool // historic-edge request answered "discarded before historic window"
 }
 
 type c01AggConn struct {
@@ -164,13 +171,19 @@ func (c *c01AggConn) SendResponse(hctx *rpc.HandlerContext, err error) {
 }
 func (c *c01AggConn) SendEmptyResponse(lh rpc.LongpollHandle)                  {}
 func (c *c01AggConn) AccountResponseMem(hctx *rpc.HandlerContext, n int) error { return nil }
-func (c *c01AggConn) ListenAddr() net.Addr                                     { return &net.TCPAddr{IP: net.IPv4(127, 0, 0, 1), Port: 13336} }
-func (c *c01AggConn) LocalAddr() net.Addr                                      { return &net.TCPAddr{IP: net.IPv4(127, 0, 0, 1), Port: 13336} }
-func (c *c01AggConn) RemoteAddr() net.Addr                                     { return &net.TCPAddr{IP: net.IPv4(10, 1, 2, 3), Port: 40000} }
-func (c *c01AggConn) KeyID() [4]byte                                           { return [4]byte{} }
-func (c *c01AggConn) ProtocolVersion() uint32                                  { return rpc.LatestProtocolVersion }
-func (c *c01AggConn) ProtocolTransportID() byte                                { return 0 }
-func (c *c01AggConn) ConnectionID() uintptr                                    { return 1 }
+func (c *c01AggConn) ListenAddr() net.Addr {
+	return &net.TCPAddr{IP: net.IPv4(127, 0, 0, 1), Port: 13336}
+}
+func (c *c01AggConn) LocalAddr() net.Addr {
+	return &net.TCPAddr{IP: net.IPv4(127, 0, 0, 1), Port: 13336}
+}
+func (c *c01AggConn) RemoteAddr() net.Addr {
+	return &net.TCPAddr{IP: net.IPv4(10, 1, 2, 3), Port: 40000}
+}
+func (c *c01AggConn) KeyID() [4]byte            { return [4]byte{} }
+func (c *c01AggConn) ProtocolVersion() uint32   { return rpc.LatestProtocolVersion }
+func (c *c01AggConn) ProtocolTransportID() byte { return 0 }
+func (c *c01AggConn) ConnectionID() uintptr     { return 1 }
 
 // answer records the answer to a request and checks S2 (discard only after a successful insert or a deliberate reject).
 func (w *c01World) answer(r *c01Sent, body []byte, rpcErr error) {
@@ -199,6 +212,10 @@ func (w *c01World) answer(r *c01Sent, body []byte, rpcErr error) {
 	deliberate := r.kind == c01TooOld || r.kind == c01Future || r.kind == c01WrongShard || r.kind == c01Undecodable
 	if deliberate {
 		return
+	}
+	if r.kind == c01HistoricEdge && strings.Contains(r.warning, "before historic window") {
+		r.leftWindow = true
+		return // it left the historic window while waiting: a stated, deliberate discard
 	}
 	if r.insertsOK == 0 {
 		w.fail("C01:agg-discard-without-successful-insert", fmt.Sprintf("request #%d (%s second %d, long poll %v) was answered discard (warning %q) although no successful insert contained its rows; inserts so far: %v", r.id, c01KindName[r.kind], r.time, r.longpoll, r.warning, w.inserts))
@@ -367,6 +384,8 @@ func c01AggRun(x *mc.Exec, sc c01AggScenario, rep *mc.Report) mc.Verdict {
 				if r.discard {
 					w.fail("C01:agg-late-recent-discarded", fmt.Sprintf("late recent request #%d (second %d) was answered discard (%q): the agent forgets a second that was never inserted", r.id, r.time, r.warning))
 				}
+			case r.kind == c01HistoricEdge && w.failures == 0 && !r.leftWindow && !(r.discard && r.insertsOK > 0):
+				w.fail("C01:agg-accepted-second-not-inserted", fmt.Sprintf("edge-of-window historic request #%d (second %d) ended as discard=%v warning=%q rpc error=%q with %d successful inserts: neither inserted nor discarded as having left the historic window; inserts: %v", r.id, r.time, r.discard, r.warning, r.rpcErr, r.insertsOK, w.inserts))
 			case accepted && w.failures == 0 && !(r.discard && r.insertsOK > 0):
 				w.fail("C01:agg-accepted-second-not-inserted", fmt.Sprintf("request #%d (%s second %d) was accepted but ended as discard=%v warning=%q rpc error=%q with %d successful inserts of its rows although ClickHouse never failed; inserts: %v", r.id, c01KindName[r.kind], r.time, r.discard, r.warning, r.rpcErr, r.insertsOK, w.inserts))
 			}
@@ -428,6 +447,8 @@ func c01Send(w *c01World, a *Aggregator, sc c01AggScenario, id int, kind int, ag
 		r.time, historic = own(oldest-30), true
 	case c01Spare:
 		r.time, spare = own(now-1)-1, true // the previous replica's second, rounded up to ours
+	case c01HistoricEdge:
+		r.time, historic = own(oldest-c01HistoricWindow+2), true // in [oldest-window, oldest-window+2]: the oldest seconds the handler still accepts
 	case c01TooOld:
 		r.time, historic = own(oldest-c01HistoricWindow-30), true
 	case c01Future:
@@ -494,7 +515,7 @@ func TestVerifC01Agg(t *testing.T) {
 	bound := mc.Pick(1, 2)
 	rep.Bounds["aggregator_deviation_bound"] = bound
 	rep.Bounds["aggregator_scenarios"] = len(scs)
-	rep.Rule = "aggregator half: every execution with at most B deviations (ClickHouse insert answers 500 instead of 200; another thread than the default one runs; a due timer fires first; non-source-order select probe) of every scenario (2-3 scripted agents sending on-time recent / late recent / historic / spare / beyond-historic-window / far-future / wrong-shard / undecodable requests, replica 1-3, 1-2 inserters), real handler + ticker + inserters under virtual time. Non-trivial = execution with an insert failure or a schedule deviation"
+	rep.Rule = "aggregator half: every execution with at most B deviations (ClickHouse insert answers 500 instead of 200; another thread than the default one runs; a due timer fires first; non-source-order select probe) of every scenario (2-3 scripted agents sending on-time recent / late recent / historic / historic at the edge of the window / spare / beyond-historic-window / far-future / wrong-shard / undecodable requests, replica 1-3, 1-2 inserters), real handler + ticker + inserters under virtual time. Non-trivial = execution with an insert failure or a schedule deviation"
 	shard, shards := mc.ShardFromEnv()
 	body := func(x *mc.Exec) mc.Verdict {
 		si := x.ChooseFree(len(scs), "scenario")
